@@ -525,8 +525,11 @@ func runC12(c *Checker) {
 	// queue.stop closes queue.quit; syncer.quit is the queue's quit
 	if qs := w.Func("(*gbn.queue).stop"); qs != nil {
 		okk := len(findCalls(qs, func(ci ssa.CallInstruction) bool {
+			if !isBuiltinCall(ci, "close") {
+				return false
+			}
 			f := fieldOfValue(ci.Common().Args[0])
-			return isBuiltinCall(ci, "close") && f != nil && w.fieldKey(f) == "gbn.queue.quit"
+			return f != nil && w.fieldKey(f) == "gbn.queue.quit"
 		})) == 1
 		c.decide(okk, "EXIT", "queue.stop|close(quit)", qs.Pos(), "queue.stop closes queue.quit", "queue.stop does not close queue.quit: waitForSync/proceedAfterTime are never woken by Close")
 	} else {
